@@ -1,0 +1,42 @@
+//go:build verif
+
+// Contracts for the range plugin, checked by /verif/govc (comment-only file).
+
+package rangeplugin
+
+//@ guard PluginState.Recordsv4 by Mutex
+
+// state invariant of a PluginState (established by setupRange, preserved by Handler4)
+//@ pure func rinv(p *PluginState) bool = p != nil && p.Recordsv4 != nil && p.allocator != nil && p.leasedb != nil && \
+//@     (forall k string: has(p.Recordsv4, k) ==> (p.Recordsv4[k] != nil && allocated(p.Recordsv4[k])))
+
+// C03: every row written must be loadable by loadRecords (net.ParseMAC of the stored text succeeds)
+//@ func (*PluginState).saveIPAddress
+//@   requires p != nil && p.leasedb != nil && record != nil
+//@   requires[C03:row-is-loadable] parsemac_ok(hwstr(mac))
+//@   modifies nothing
+
+//@ func loadRecords
+//@   requires db != nil
+//@   modifies everything
+//@   ensures ret1 == nil ==> ret0 != nil
+//@   loop 1: invariant records != nil && db != nil && rows != nil
+
+//@ func (*PluginState).Handler4
+//@   implements handler.Handler4
+//@   requires rinv(p) && !held(p.Mutex)
+//@   modifies everything
+//@   preserves *p
+//@   ensures rinv(p) && !held(p.Mutex)
+// C02: a client that already has a binding keeps its address (and the record object)
+//@   ensures[C02:bound-client-keeps-its-address] old(has(p.Recordsv4, hwstr(req.ClientHWAddr))) ==> (ret0 == resp && !ret1 && \
+//@       p.Recordsv4[hwstr(req.ClientHWAddr)] == old(p.Recordsv4[hwstr(req.ClientHWAddr)]) && resp.YourIPAddr == old(p.Recordsv4[hwstr(req.ClientHWAddr)].IP))
+//@   ensures[C02:bindings-are-never-changed] forall k string: old(has(p.Recordsv4, k)) ==> (has(p.Recordsv4, k) && p.Recordsv4[k] == old(p.Recordsv4[k]) && p.Recordsv4[k].IP == old(p.Recordsv4[k].IP))
+// C02: when the allocator has nothing left, an unknown client gets no reply and nothing changes
+//@   ensures[C02:exhausted-means-no-reply-for-unknown-clients-only] ret0 == nil ==> (ret1 && !old(has(p.Recordsv4, hwstr(req.ClientHWAddr))) && alloc_ok == old(alloc_ok) && \
+//@       (forall k string: has(p.Recordsv4, k) <==> old(has(p.Recordsv4, k))))
+// C02: an unknown client is bound to an address freshly obtained from the allocator
+//@   ensures[C02:new-binding-comes-from-the-allocator] (!old(has(p.Recordsv4, hwstr(req.ClientHWAddr))) && ret0 != nil) ==> (alloc_ok == old(alloc_ok) + 1 && has(p.Recordsv4, hwstr(req.ClientHWAddr)) && \
+//@       resp.YourIPAddr == p.Recordsv4[hwstr(req.ClientHWAddr)].IP && (forall k string: k != hwstr(req.ClientHWAddr) ==> (has(p.Recordsv4, k) <==> old(has(p.Recordsv4, k)))))
+//@   ensures[C02:known-clients-consume-nothing] old(has(p.Recordsv4, hwstr(req.ClientHWAddr))) ==> alloc_ok == old(alloc_ok)
+//@   ensures[C02:configured-lease-time] ret0 != nil ==> has(resp.Options, 51)
